@@ -29,7 +29,7 @@ EXPLANATION = (
     "antisymmetry, transitivity, zero-iff-equal and agreement with the documented (namespace, name) / (length, elementwise) order. "
     "sort/sort-by and the comparator adapter are checked structurally plus by evaluating the adapter on a boolean and a 3-way comparator."
 )
-DECIDES = "total-order laws of compare on keywords, symbols, vectors (exhaustive over ordering classes), nil arms, sort = stable sorted() by the comparator"
+DECIDES = "total-order laws of compare on keywords, symbols, vectors incl. nil and NaN elements (exhaustive over ordering classes, through the registered singledispatch arms), nil arms, sort = stable sorted() by the comparator"
 DECLINED = "numbers and strings (Python's own ordering), behaviour of user comparators"
 TRUSTED = ["functools.total_ordering derivations", "sorted() is a stable permutation", "str/int comparison is a total order", "PersistentVector.__eq__ is elementwise equality (checked under C05)"]
 ASSUMPTIONS = ["the interpreted fragment of Python (if/return/compare/bool ops/isinstance/for-zip) is evaluated as CPython does"]
